@@ -33,7 +33,7 @@ class Spec(pipeprops.PropSpec):
             "nodes; non-trivial = some class with >= 2 instances and some non-typing triple")
 
     def gen_cases(self, tier, rnd):
-        n = 5000 if tier == "thorough" else 350
+        n = 15000 if tier == "thorough" else 1000
         cases = []
         for i in range(n):
             r = random.Random(rnd.getrandbits(48))
